@@ -44,7 +44,7 @@ type Net struct {
 	CNAME     map[string]string // simulated DNS: host -> canonical name ("!" prefix = look-up error)
 	Fired     map[string]int    // fault kinds that took effect (single-task engines only)
 	FiredMu   sync.Mutex
-	logs      [64]taskNetLog
+	logs      [512]taskNetLog
 	Last      map[string][]byte // per address: the reply to the previous request (for "stale")
 	// Mangle lets an engine damage a reply in flight (C04, C09): called with the honest reply.
 	Mangle func(proto, addr string, req, reply []byte) []byte
@@ -70,7 +70,7 @@ func (n *Net) fire(kind string) {
 func (n *Net) logEv(e NetEvent) {
 	e.At = simrt.NowNs()
 	e.Task = simrt.Cur().ID
-	l := &n.logs[e.Task&63]
+	l := &n.logs[e.Task&511]
 	l.mu.Lock()
 	l.evs = append(l.evs, e)
 	l.mu.Unlock()
